@@ -113,6 +113,18 @@ Theorem c01_builder_calls : forall ops o,
   op_timestamp (ops ++ [o]) = match o with WithTimestamp t => Some t | _ => op_timestamp ops end.
 Proof. intros ops o. repeat (split; [reflexivity|]). exact (op_summaries_snoc ops o). Qed.
 
+(* what ANY chain of builder calls does to a formatter: tags are appended in call order; rate,
+   container id and timestamp are last-wins over what the formatter had; prefix, key, value
+   and kind are never touched *)
+Theorem c01_builder_fold : forall ops f,
+  fold_left apply_bop ops f =
+  {| f_prefix := f_prefix f; f_key := f_key f; f_val := f_val f; f_kind := f_kind f;
+     f_tags := f_tags f ++ op_tags ops;
+     f_timestamp := match op_timestamp ops with Some t => Some t | None => f_timestamp f end;
+     f_rate := match op_rate ops with Some r => Some r | None => f_rate f end;
+     f_container := match op_container ops with Some x => Some x | None => f_container f end |}.
+Proof. exact fold_bops. Qed.
+
 (* clean = none of the six delimiter bytes occurs *)
 Theorem c01_clean : forall s,
   clean s = true <->
